@@ -33,14 +33,15 @@ import (
 func init() {
 	h.Register(&h.Prop{
 		ID: "C02",
-		Rule: "cases: rec = tbls.Recover on a list of raw entries for a dealt (t,n) key: EVERY subset of valid shares for all 1<=t<=n<=8 (exhaustive), " +
-			"permutations, multisets (exact duplicates), re-encodings of the same share (trailing bytes), junk catalogue (len 0,1,2,65,66+k, off-curve, identity, " +
+		Rule: "cases: rec = tbls.Recover on a list of raw entries for a dealt (t,n) key: EVERY subset of valid shares for all 1<=t<=n<=8 (quick; thorough: n<=12) and EVERY ORDER of every subset for n<=5 (thorough: n<=6) - that is the exhaustive space of the flag, larger n (the mix goes to n=64, t<=33) is sampled; " +
+			"permutations, multisets (exact duplicates), re-encodings of the same share (1..3 trailing bytes and tails of 62..131, 200, 513 bytes), public polynomials with more coefficients than t, members whose share key is the identity (root of the polynomial at their point), junk catalogue (len 0,1,2,65,66+k, off-curve, identity, " +
 			"x+p / y+p coordinates, wrong index, index>=n incl. a genuine evaluation there, other message, foreign polynomial), messages empty/1B/1MiB, secrets 0,1,r-1,random, " +
 			"degenerate polynomials; large groups n in {65,100,255,256,257,300} with t<=4 and members at indices 63..66, 254..257, n-1 replayed under several encodings; " +
 			"hist = a sequence of sign/verify/recover calls in one process sharing a message buffer that is overwritten in place between calls; sign/blssign = the signing side; non-trivial = anything but the first t shares in index order; distinct = distinct case line",
-		Gen:        gen,
-		Exec:       Exec,
-		Exhaustive: func(tier string) bool { return true },
+		Gen:  gen,
+		Exec: Exec,
+		// the exhaustive space is stated in Rule (tier-specific); everything beyond it is sampled
+		Exhaustive: func(tier string) bool { return tier == "quick" || tier == "thorough" },
 	})
 }
 
@@ -459,6 +460,46 @@ func RandPoly(rng *h.Rng, t, kind int) []*big.Int {
 	return c
 }
 
+// RootPoly: a polynomial with t >= 2 coefficients and a ROOT at member i's point (f(i+1) = 0): that
+// member's share key is the identity of G2 and its share the identity of G1 (review B #2)
+func RootPoly(rng *h.Rng, t, i int) []*big.Int {
+	c := make([]*big.Int, t)
+	for j := range c {
+		c[j] = rng.Big(R)
+	}
+	if t == 2 && c[1].Sign() == 0 {
+		c[1] = big.NewInt(1)
+	}
+	c[0] = big.NewInt(0)
+	c[0] = new(big.Int).Mod(new(big.Int).Neg(RefEval(c, i)), R)
+	return c
+}
+
+// Tail: trailing bytes of an alternative encoding of a share: 1..3 bytes, or lengths around one and two
+// point sizes (64, 128) and beyond (review B #9: "alternative byte encodings of the same share")
+func Tail(rng *h.Rng) []byte {
+	n := 1 + rng.Intn(3)
+	if rng.Intn(3) == 0 {
+		n = []int{62, 63, 64, 65, 66, 127, 128, 129, 130, 131, 200, 513}[rng.Intn(12)]
+	}
+	return rng.Bytes(n)
+}
+
+// permutations of a small list
+func perms(a []int) [][]int {
+	if len(a) <= 1 {
+		return [][]int{append([]int{}, a...)}
+	}
+	var r [][]int
+	for i := range a {
+		rest := append(append([]int{}, a[:i]...), a[i+1:]...)
+		for _, p := range perms(rest) {
+			r = append(r, append([]int{a[i]}, p...))
+		}
+	}
+	return r
+}
+
 func addP(b []byte) []byte { // 32-byte big-endian v -> v+p if it still fits 32 bytes, else unchanged
 	v := new(big.Int).Add(new(big.Int).SetBytes(b), P)
 	if v.BitLen() > 256 {
@@ -541,9 +582,13 @@ func gen(tier string, rng *h.Rng, emit0 func(string)) {
 		}
 	}()
 	thorough := tier == "thorough"
-	// 1. EXHAUSTIVE: every subset of the n valid shares, all 1 <= t <= n <= 8
+	// 1. EXHAUSTIVE: every subset of the n valid shares, all 1 <= t <= n <= 8 (thorough: n <= 12)
 	kind := 0
-	for n := 1; n <= 8; n++ {
+	maxN := 8
+	if thorough {
+		maxN = 12
+	}
+	for n := 1; n <= maxN; n++ {
 		for t := 1; t <= n; t++ {
 			coeffs := RandPoly(rng, t, kind)
 			kind++
@@ -560,6 +605,41 @@ func gen(tier string, rng *h.Rng, emit0 func(string)) {
 			}
 		}
 	}
+	// 1b. EVERY ORDER of every non-empty subset, all 1 <= t <= n <= 5 (thorough: n <= 6)
+	maxP := 5
+	if thorough {
+		maxP = 6
+	}
+	for n := 1; n <= maxP; n++ {
+		for t := 1; t <= n; t++ {
+			coeffs := RandPoly(rng, t, kind)
+			kind++
+			msgTok := MsgTok(rng.Bytes(rng.Intn(40)))
+			hs := HashScalar(Msg(msgTok))
+			for mask := 1; mask < 1<<uint(n); mask++ {
+				var sub []int
+				for i := 0; i < n; i++ {
+					if mask>>uint(i)&1 == 1 {
+						sub = append(sub, i)
+					}
+				}
+				for _, pm := range perms(sub) {
+					ascending := true
+					for a := 1; a < len(pm); a++ {
+						ascending = ascending && pm[a-1] < pm[a]
+					}
+					if ascending {
+						continue // section 1 has it
+					}
+					var es [][]byte
+					for _, i := range pm {
+						es = append(es, ValidShare(coeffs, hs, i))
+					}
+					emit(recLine(t, n, coeffs, msgTok, es))
+				}
+			}
+		}
+	}
 	// 2. permutations, multisets, re-encodings, junk
 	nmix := 500
 	if thorough {
@@ -568,7 +648,7 @@ func gen(tier string, rng *h.Rng, emit0 func(string)) {
 	for k := 0; k < nmix; k++ {
 		n := 1 + rng.Intn(9)
 		if k%23 == 0 {
-			n = 9 + rng.Intn(24)
+			n = 9 + rng.Intn(56) // up to 64 members, t up to 33
 		}
 		t := n/2 + 1
 		if rng.Intn(3) == 0 {
@@ -604,14 +684,14 @@ func gen(tier string, rng *h.Rng, emit0 func(string)) {
 			case 0: // exact duplicate
 				es = append(es, v, append([]byte{}, v...))
 			case 1: // re-encoding with trailing bytes, before or after the plain one
-				re := append(append([]byte{}, v...), rng.Bytes(1+rng.Intn(3))...)
+				re := append(append([]byte{}, v...), Tail(rng)...)
 				if rng.Bool() {
 					es = append(es, re, v)
 				} else {
 					es = append(es, v, re)
 				}
 			case 2: // only the re-encoding
-				es = append(es, append(append([]byte{}, v...), 0))
+				es = append(es, append(append([]byte{}, v...), Tail(rng)...))
 			default:
 				es = append(es, v)
 			}
@@ -630,6 +710,76 @@ func gen(tier string, rng *h.Rng, emit0 func(string)) {
 				sh[a] = es[b]
 			}
 			es = sh
+		}
+		emit(recLine(t, n, coeffs, msgTok, es))
+	}
+	// 2b. a public polynomial with MORE than t coefficients (review B #3; /repo 3cdfff8): t, t+1, all
+	// valid shares of it, in order and shuffled, with and without junk: an error or a verifying result
+	nlong := 60
+	if thorough {
+		nlong = 600
+	}
+	for k := 0; k < nlong; k++ {
+		n := 2 + rng.Intn(7)
+		t := 1 + rng.Intn(n)
+		coeffs := RandPoly(rng, t+1+rng.Intn(3), rng.Intn(12))
+		if k%5 == 0 {
+			for j := t; j < len(coeffs); j++ { // the extra coefficients are zero: the value IS determined
+				coeffs[j] = big.NewInt(0)
+			}
+		}
+		msgTok := MsgTok(rng.Bytes(rng.Intn(20)))
+		hs := HashScalar(Msg(msgTok))
+		take := []int{t, t + 1, n, len(coeffs)}[k%4]
+		if take > n {
+			take = n
+		}
+		var es [][]byte
+		for _, i := range rng.Perm(n)[:take] {
+			es = append(es, ValidShare(coeffs, hs, i))
+			if rng.Intn(4) == 0 {
+				es = append(es, Junk(rng, rng.Intn(NJunk), coeffs, hs, n, i))
+			}
+		}
+		emit(recLine(t, n, coeffs, msgTok, es))
+	}
+	// 2c. a member whose share key is the identity (the polynomial has a root at its point), t >= 2:
+	// its true share is the identity of G1; anything else under its index must not count
+	nroot := 40
+	if thorough {
+		nroot = 400
+	}
+	for k := 0; k < nroot; k++ {
+		n := 2 + rng.Intn(6)
+		t := 2 + rng.Intn(n-1)
+		i := rng.Intn(n)
+		coeffs := RootPoly(rng, t, i)
+		msgTok := MsgTok(rng.Bytes(rng.Intn(20)))
+		hs := HashScalar(Msg(msgTok))
+		var others []int
+		for _, j := range rng.Perm(n) {
+			if j != i {
+				others = append(others, j)
+			}
+		}
+		var es [][]byte
+		for _, j := range others[:t-1] {
+			es = append(es, ValidShare(coeffs, hs, j))
+		}
+		forged := append([]byte{byte(i >> 8), byte(i)}, G1Bytes(rng.Big(R))...) // some curve point under index i
+		switch k % 4 {
+		case 0: // t-1 valid + a curve point under the root member's index: below threshold
+			es = append(es, forged)
+		case 1: // … + the true (identity) share: qualifies
+			es = append(es, forged, ValidShare(coeffs, hs, i))
+		case 2: // identity share first
+			es = append([][]byte{ValidShare(coeffs, hs, i), forged}, es...)
+		case 3: // every junk kind under that index
+			for kindJ := 0; kindJ < NJunk; kindJ++ {
+				if kindJ != 6 && kindJ != 11 {
+					es = append(es, Junk(rng, kindJ, coeffs, hs, n, i))
+				}
+			}
 		}
 		emit(recLine(t, n, coeffs, msgTok, es))
 	}
